@@ -261,7 +261,7 @@ def inputs_json(p, **kw):
 def tiers(tier):
     if tier == "quick":
         return dict(nprob=30, npass=40, nfista=24, nas=56, nadmm=10, aswarm=80, ncold=12, nfista2=10, nseq=8, ncall=8, nadmmloop=16, nadmmpred=12, nadmmnn=6)
-    return dict(nprob=240, npass=400, nfista=160, nas=640, nadmm=60, aswarm=1500, ncold=100, nfista2=80, nseq=80, ncall=48, nadmmloop=130, nadmmpred=100, nadmmnn=60)
+    return dict(nprob=240, npass=400, nfista=160, nas=640, nadmm=60, aswarm=1500, ncold=100, nfista2=80, nseq=80, ncall=48, nadmmloop=100, nadmmpred=100, nadmmnn=40)
 
 
 def dyadic_start(rng, r, n, kind):
